@@ -34,13 +34,13 @@ FlagsBad(o) ==
   (IF o.dense = (In.k = 0) /\ o.isdense = o.dense THEN {} ELSE {"dense-flag"}) \cup
   (IF o.islinear = (In.meth.name = "linear") THEN {} ELSE {"is-linear"}) \cup
   (IF o.size = NN THEN {} ELSE {"size"}) \cup
-  (IF o.dup = 0 THEN {} ELSE {"duplicate-or-out-of-range-entries"}) \cup
-  (IF o.bad = 0 THEN {} ELSE {"non-finite-or-huge-value"}) \cup
+  (IF o.dup = 0 THEN {} ELSE {"csr-entries"}) \cup
+  (IF o.bad = 0 THEN {} ELSE {"non-finite-value"}) \cup
   (IF o.ft \in {"f64", "f32"} THEN {} ELSE {"float-type"}) \cup
   (IF o.hastgt => o.tgt = [i \in 1..NN |-> 99 + i] THEN {} ELSE {"targets"})
 
 ValsBad(o) ==
-  (IF ValsKernel(In.pts, In.pd, In.meth, o.ft, o.pat, o.val) THEN {} ELSE {"value-not-kernel-function"}) \cup
+  (IF ValsKernel(In.pts, In.pd, In.meth, o.ft, o.pat, o.val) THEN {} ELSE {"value-not-kernel"}) \cup
   (IF ValsSym(In.pts, o.val) THEN {} ELSE {"value-symmetry"}) \cup
   (IF GaussUnitDiag(In.pts, In.meth, o.val) THEN {} ELSE {"gauss-unit-diagonal"}) \cup
   (IF GaussPSD(In.pts, In.meth, In.k, o.ft, o.val) THEN {} ELSE {"gauss-psd"})
@@ -50,7 +50,7 @@ ViewsBad(o) ==
   ELSE (IF ViewSize(NN, o) THEN {} ELSE {"view-size"}) \cup
        (IF ViewCols(NN, o.val, o) THEN {} ELSE {"view-column"}) \cup
        (IF ViewDiag(NN, o.val, o) THEN {} ELSE {"view-diagonal"}) \cup
-       (IF ViewUT(NN, o.val, o) THEN {} ELSE {"view-upper-triangle"}) \cup
+       (IF ViewUT(NN, o.val, o) THEN {} ELSE {"view-triangle"}) \cup
        (IF ViewSum(NN, o.val, o.ft, o) THEN {} ELSE {"view-sum"}) \cup
        (IF ViewDot(NN, o.val, o.ft, In.rhs, o) THEN {} ELSE {"view-dot"})
 
@@ -70,7 +70,7 @@ KernBad(o) ==
 
 EvBad == IF Ev.ev = "kern" THEN KernBad(Ev)
          ELSE IF Ev.ev = "end" /\ e = Len(Case.ev) THEN {}
-         ELSE {"unexplained-event"}
+         ELSE {"unexplained"}
 
 \* one step per event: explained -> next event (the last one prints OK), otherwise FAIL and the case ends rejected
 TStep ==
